@@ -6,6 +6,10 @@ HERE = os.path.dirname(os.path.dirname(os.path.abspath(__file__)))
 props = [json.loads(l) for l in open(os.path.join(HERE, "properties.jsonl"))]
 
 CLAIMS = {
+ "C19": dict(
+  technique="custom static checker: table extraction of the three C function-pointer structs against the declared field names, per-forwarder sibling rule on resolved callee/overload/argument order, predicate-abstraction skeleton of the OrDefault getters, tag/enum/member/getter table of the tagged-union conversion",
+  text="Interface agreement decided from the resolved program: all 125 slots hold the forwarder named for the field, every forwarder makes exactly one call to the C++ method of its family on the current object with exactly its own parameters and the overload of the type it is named for, OrDefault getters default iff there is no return value, the tagged-union conversion table is exact, adaptors and the C failure reporter mirror the C++ ones. Equality of complete failure text across interfaces is not decided.",
+  note="Trusted: clang overload resolution as recorded in the AST; the C++ interface is the reference (C08/C09)."),
  "C16": dict(
   technique="custom static checker: taint rule from stored strings to writeToFile through printf-style formats (every %s argument must be entity-encoded), escaper table/order extraction, XML parse of the literal document skeleton assembled from every path combination, counter pairing on CFG paths",
   text="Decides that every value inserted into the JUnit document is entity-encoded (or an enumerated safe source), that the encoder's table and order are right, that the literal skeleton of every path combination is well-formed with failure/skipped elements under exactly the right path conditions, that counters are incremented/reset with the events they count, and that the file name passes the sanitiser and the file is truncated. Acceptance of concrete output by an XML parser for arbitrary text is not decided.",
